@@ -347,6 +347,20 @@ class Sym:
     def __eq__(self, o): return self._cmp(o, lambda a, b: a == b)
     def __ne__(self, o): return self._cmp(o, lambda a, b: a != b)
 
+    def rint(self):
+        """numpy's round-half-to-even, exactly"""
+        s = z3.simplify(self.e)
+        if z3.is_rational_value(s):
+            return float(round(Fraction(s.numerator_as_long(), s.denominator_as_long())))
+        h = self.e + z3.RealVal('1/2')
+        r = z3.ToInt(h)
+        return Sym(z3.ToReal(z3.If(z3.And(z3.IsInt(h), r % 2 == 1), r - 1, r)))
+
+    def __round__(self, n=None):
+        if n not in (None, 0):
+            raise Realisation('round to decimals of a symbolic value')
+        return self.rint()
+
     def __floor__(self):
         s = z3.simplify(self.e)
         if z3.is_rational_value(s):
